@@ -7,6 +7,8 @@ import AcraModel.KeystoreSec.V1NamesLemmas
 import AcraModel.Generated.V1Export
 import AcraModel.KeystoreSec.V1Methods
 import AcraModel.KeystoreSec.Perms
+import AcraModel.KeystoreSec.RingOpenLemmas
+import AcraModel.KeystoreSec.DerRoundTrip
 /-!
 # C07 — keys at rest are encrypted, bound to their owner, tamper-evident and confined
 
@@ -737,6 +739,446 @@ theorem v1_load_perm_check (m : Nat) (uid0 : Bool) :
   omega
 
 end Perms
+
+/-! # The read-write open of a v2 key ring never overwrites what it cannot load
+
+Model `KeystoreSec/{DerParse,RingOpen,RingOpenLemmas}.lean` (`openKeyRing` / `OpenKeyRingRW`, `readKeyRing`,
+`writeKeyRing`, `importKeyRing`, the table of read-write entry points of the v2 `ServerKeyStore`); the guard
+of the create branch is the regenerated `Generated.RingOpen.openCreateGuard`. Tied by the ops `C07.rwopen`,
+`C07.rwentry`, `C07.rwimport` (real key stores over an in-memory / directory back end whose files are read
+directly before and after every call). -/
+section RingOpen
+open AcraModel.KeystoreSec.RingOpen AcraModel.KeystoreSec.DerParse
+
+/-- **The create guard of `openKeyRing` is "the ring does not exist" and nothing else.** Evaluated from
+the regenerated guard (operator and error value as they stand in the source) for every error a ring load
+can end with: an empty ring is pushed exactly for `backend.ErrNotExist` – not for a signature mismatch,
+a missing signature, an unparsable file, a wrong content type / version, an invalid path or an I/O error. -/
+theorem fact_open_ring_creates_iff_not_exist : ∀ e : LoadErr, createsOn e = true ↔ e = .notExist := by
+  intro e; cases e <;> decide
+
+open Generated.RingOpen in
+/-- The statements of `openKeyRing`, `pullRingUpdates`, `verifyKeyRing`, `Notary.Verify`, `writeKeyRing`,
+`readKeyRing` the model follows (log statements dropped): exclusive lock first, unlock deferred (its
+error replaces only a nil result); after the pull the error branch is the guard followed by `return err`;
+the guarded branch is `return s.pushNewRingState(ring)`; every step of the pull returns its error; the
+signature context is built from the ring's own path; the notary checks the signatures over the raw
+payload bytes of the file; content type and version are checked after the signature; only the error of
+`UnmarshalKeyRing` is merely logged; a write-back returns the error of its pull before anything is pushed. -/
+theorem fact_open_ring_shape :
+    openBeforePull = ["err = s.fs.Lock()", "if err != nil { return err }",
+      "defer func() { err2 := s.fs.Unlock(); if err2 != nil { if err == nil { err = err2 } } }"] ∧
+    openCreateBranch = ["return s.pushNewRingState(ring)"] ∧ openErrorReturn = "return err" ∧ openAfterPull = ["return nil"] ∧
+    pullSteps = ["s.fetchASNring:return", "s.verifyKeyRing:return", "ring.loadASN1:return"] ∧
+    pullVerifyArgs = ["ring.path"] ∧ pullFetchArgs = ["ring.path"] ∧
+    verifySteps = ["s.notary.Verify:return", "asn1.UnmarshalKeyRing:log-only"] ∧
+    verifyContextCalls = ["s.keyRingSignatureContext"] ∧ verifyContextArg = ["path"] ∧ verifyNotaryArgs = ["data", "context"] ∧
+    verifyChecks = ["err != nil => return nil, nil, err",
+      "verified.Payload.ContentType != asn1.TypeKeyRing => return nil, nil, errIncorrectContentType",
+      "verified.Payload.Version != asn1.KeyRingVersion2 => return nil, nil, errUnsupportedVersion", "err != nil => "] ∧
+    notaryVerifySteps = ["asn1.UnmarshalVerifiedContainer:return", "s.verifySignatures:return"] ∧
+    notaryVerifySigArgs = ["decoded.Signatures", "decoded.Payload.RawContent", "context"] ∧
+    writeSteps = ["s.pullRingUpdates:return", "ring.applyPendingTX:return", "s.pushNewRingState:return"] ∧
+    readSteps = ["s.pullRingUpdates:return"] ∧
+    backendErrors = ["ErrNotExist", "ErrExist", "ErrInvalidPath"] ∧
+    Generated.KeystoreSec.pushASNringCalls = ["s.fs.Put", "s.fs.Rename"] ∧ Generated.KeystoreSec.pushASNringPutPath = ["newPath"] ∧
+    Generated.KeystoreSec.fetchASNringCalls = ["s.fs.Get"] ∧ Generated.KeystoreSec.pushNewRingStateCalls = ["s.signKeyRing", "s.pushASNring"] := by
+  refine ⟨by decide, by decide, by decide, by decide, by decide, by decide, by decide, by decide, by decide, by decide, by decide,
+    by decide, by decide, by decide, by decide, by decide, by decide, by decide, by decide, by decide, by decide⟩
+
+open Generated.RingOpen in
+/-- Inside the file-system key store only `pushASNring` calls `Backend.Put` / `Rename`, only
+`pushNewRingState` calls it, and `pushNewRingState` is reached from `openKeyRing` (the guarded branch) and
+`writeKeyRing` (after a successful pull) only; `openKeyRing` is called by `OpenKeyRingRW` and
+`importKeyRing`. Nothing uses `RenameNX`. -/
+theorem fact_ring_push_callers :
+    pushCallers = ["KeyStore.OpenKeyRingRW>s.openKeyRing", "KeyStore.importKeyRing>s.openKeyRing",
+      "KeyStore.openKeyRing>s.pushNewRingState", "KeyStore.pushASNring>s.fs.Put", "KeyStore.pushASNring>s.fs.Rename",
+      "KeyStore.pushNewRingState>s.pushASNring", "KeyStore.writeKeyRing>s.pushNewRingState"] := by decide
+
+open Generated.RingOpen in
+/-- `importKeyRing` reads the ring first and goes on to `openKeyRing` only in the `backendAPI.ErrNotExist`
+case of its `switch err`; the default case returns the error. -/
+theorem fact_import_opens_iff_not_exist :
+    (∀ e : LoadErr, importOpensOn e = true ↔ e = .notExist) ∧
+    importSwitchCases = ["nil", "ErrNotExist", "default"] ∧ importDefaultCase = ["return err"] := by
+  refine ⟨?_, by decide, by decide⟩
+  intro e; cases e <;> decide
+
+open Generated.RingOpen in
+/-- **The read-write entry points of the v2 `ServerKeyStore`.** The functions of `keystore/v2/keystore`
+that call `OpenKeyRingRW` are exactly these 26 methods (sorted by name: generators, savers, destroyers, rotated-key
+destroyers, the four poison-key getters, the five importers reached from `ImportKeyFileV1`), **every one of
+them** opens its ring as its first action and returns the error of the open, and the ring path is one of
+the six path expressions of the store. A new read-write method, or one that does something before the
+open / swallows its error, changes this table. -/
+theorem fact_rw_entry_points :
+    rwEntryPoints.map (·.2.1) = ["ServerKeyStore.DestroyClientIDEncryptionKeyPair", "ServerKeyStore.DestroyClientIDSymmetricKey",
+      "ServerKeyStore.DestroyHmacSecretKey", "ServerKeyStore.DestroyPoisonKeyPair", "ServerKeyStore.DestroyPoisonSymmetricKey",
+      "ServerKeyStore.DestroyRotatedClientIDEncryptionKeyPair", "ServerKeyStore.DestroyRotatedClientIDSymmetricKey",
+      "ServerKeyStore.DestroyRotatedHmacSecretKey", "ServerKeyStore.DestroyRotatedPoisonKeyPair", "ServerKeyStore.DestroyRotatedPoisonSymmetricKey",
+      "ServerKeyStore.GenerateClientIDSymmetricKey", "ServerKeyStore.GenerateDataEncryptionKeys", "ServerKeyStore.GenerateHmacKey",
+      "ServerKeyStore.GenerateLogKey", "ServerKeyStore.GeneratePoisonKeyPair", "ServerKeyStore.GeneratePoisonSymmetricKey",
+      "ServerKeyStore.GetPoisonKeyPair", "ServerKeyStore.GetPoisonPrivateKeys", "ServerKeyStore.GetPoisonSymmetricKey",
+      "ServerKeyStore.GetPoisonSymmetricKeys", "ServerKeyStore.SaveDataEncryptionKeys", "ServerKeyStore.importClientIDSymmetricKey",
+      "ServerKeyStore.importHmacKey", "ServerKeyStore.importLogKey", "ServerKeyStore.importPoisonRecordSymmetricKey",
+      "ServerKeyStore.savePoisonKeyPair"] ∧
+    (rwEntryPoints.all fun r => r.2.2.2 == "open-first-return-err") = true ∧
+    (rwEntryPoints.all fun r => ["auditLogSymmetricKeyPath", "poisonKeyPath", "poisonSymmetricKeyPath", "s.clientHMACKeyPath(clientID)",
+      "s.clientStorageSymmetricKeyPath(clientID)", "s.clientStorageKeyPairPath(clientID)"].contains r.2.2.1) = true ∧
+    rwInternalCallers = ["ServerKeyStore.ImportKeyFileV1>importClientIDSymmetricKey", "ServerKeyStore.ImportKeyFileV1>importHmacKey",
+      "ServerKeyStore.ImportKeyFileV1>importLogKey", "ServerKeyStore.ImportKeyFileV1>importPoisonRecordSymmetricKey",
+      "ServerKeyStore.ImportKeyFileV1>savePoisonKeyPair"] := by
+  refine ⟨by decide, by decide, by decide, by decide⟩
+
+/-- the temporary `<ring>.keyring.new` is not the ring file (the suffix `.new` is not empty) -/
+theorem fact_new_suffix : newSuffix ≠ [] := by decide
+
+/-- **A read-write open that cannot load what is stored fails and preserves it** – for every state of
+the back end, every ring path, every error: when the pull ends with anything but "the ring does not
+exist" (bad signature, signature made for another path, no known signature, unparsable bytes, wrong
+content type / version, invalid path, unreadable file), `OpenKeyRingRW` returns an error, the back end is
+exactly as before, and neither `Put` nor `Rename` is called. -/
+theorem rw_open_error_preserves (c : CryptoOps) (sigKey : Bytes) (time : Int) (b : Backend) (path : Bytes) (e : LoadErr)
+    (hp : pull c sigKey b path = .error e) (hne : e ≠ .notExist) :
+    let r := openKeyRing c sigKey time b path
+    r.out.isErr = true ∧ r.backend = b ∧ ∀ call ∈ r.trace, call.isWrite = false := by
+  have hg : createsOn e = false := by
+    cases h : createsOn e with
+    | false => rfl
+    | true => exact absurd ((fact_open_ring_creates_iff_not_exist e).mp h) hne
+  have := openKeyRing_no_create c sigKey time b path e hp hg
+  exact ⟨this.2.1, this.1, this.2.2⟩
+
+/-- **Tamper evidence survives the read-write open.** Whatever byte string `d` is stored at a ring's
+path: if it does not load there – it does not parse as a signed container, a known signature does not
+match the payload bytes under *this path's* context, there is no known signature, or type / version are
+wrong – then `OpenKeyRingRW` returns an error AND the stored bytes (and everything else in the back end)
+are identical afterwards; no `Put`, no `Rename`. The evidence of the tampering and the keys inside are
+not replaced by a fresh empty ring. -/
+theorem rw_open_tampered_fails_and_preserves (c : CryptoOps) (sigKey : Bytes) (time : Int) (b : Backend) (path d : Bytes) (e : LoadErr)
+    (hstored : b.get (ringFile path) = .ok d) (hbad : loadBytes c sigKey path d = .error e) :
+    let r := openKeyRing c sigKey time b path
+    r.out.isErr = true ∧ r.backend = b ∧ r.backend.files (ringFile path) = some d ∧ ∀ call ∈ r.trace, call.isWrite = false := by
+  have hp : pull c sigKey b path = .error e := by rw [pull_of_get c sigKey b path d hstored]; exact hbad
+  have hne : e ≠ .notExist := by
+    intro h; rw [h] at hbad; exact loadBytes_ne_notExist _ _ _ _ hbad
+  have := rw_open_error_preserves c sigKey time b path e hp hne
+  refine ⟨this.1, this.2.1, ?_, this.2.2⟩
+  simp only at this
+  rw [this.2.1]
+  exact get_ok_files b _ d hstored
+
+/-- **Only a missing ring is created.** If `OpenKeyRingRW` calls `Put` or `Rename`, changes the back
+end in any way, or reports a creation, then nothing was stored at the ring's path (`Get` answered
+`ErrNotExist`). And a reported creation leaves exactly: the signed empty ring for this path (purpose =
+path, no keys, no current key, signed under this path's context) at the ring's path, no temporary,
+every other path untouched; the calls were `Lock, Get, Put(<ring>.keyring.new), Rename, Unlock` in this
+order – check and creation under one exclusive lock. -/
+theorem rw_open_creates_only_missing (c : CryptoOps) (sigKey : Bytes) (time : Int) (b : Backend) (path : Bytes) :
+    let r := openKeyRing c sigKey time b path
+    (((∃ call ∈ r.trace, call.isWrite = true) ∨ r.backend ≠ b ∨ r.out = .created) → b.get (ringFile path) = .error .notExist) ∧
+    (r.out = .created →
+      r.backend.files (ringFile path) = some (signedFile c sigKey path time (emptyRing path)) ∧
+      r.backend.files (newFile path) = none ∧
+      (∀ q, q ≠ ringFile path → q ≠ newFile path → r.backend.files q = b.files q) ∧
+      r.trace = [.lock, .get (ringFile path), .put (newFile path) (signedFile c sigKey path time (emptyRing path)),
+        .rename (newFile path) (ringFile path), .unlock]) := by
+  refine ⟨?_, ?_⟩
+  · intro h
+    obtain ⟨e, hp, hg⟩ := openKeyRing_write_only_on_guard c sigKey time b path h
+    have := (fact_open_ring_creates_iff_not_exist e).mp hg
+    subst this
+    exact pull_notExist c sigKey b path hp
+  · intro h
+    exact openKeyRing_created c sigKey time b path fact_new_suffix h
+
+/-- the empty ring a creation writes verifies under its own path's context (it is an honest ring) -/
+theorem rw_open_created_ring_is_signed (c : CryptoOps) (sigKey path : Bytes) (time : Int) :
+    Notary.verify c sigKey (sigCtx path) (Notary.sign c sigKey (sigCtx path) (ringPayload time (emptyRing path))) = true :=
+  Notary.verify_sign c sigKey _ _
+
+/-- **Every read-write entry point of the v2 key store preserves tamper evidence.** For every row of the
+regenerated table of methods that open a ring read-write (generators, savers, destroyers, poison-key
+getters, importers), whatever the method goes on to do after a successful open (`rest`, arbitrary): if
+what is stored at the method's ring path does not load, the method returns an error and the back end –
+the tampered file included – is exactly as before. -/
+theorem rw_entry_points_preserve_tamper_evidence (row : String × String × String × String)
+    (hrow : row ∈ Generated.RingOpen.rwEntryPoints)
+    (c : CryptoOps) (sigKey : Bytes) (time : Int) (b : Backend) (path d : Bytes) (e : LoadErr)
+    (rest : Backend → OpenOut → Done) (other : Backend → Done)
+    (hstored : b.get (ringFile path) = .ok d) (hbad : loadBytes c sigKey path d = .error e) :
+    (runEntry row.2.2.2 c sigKey time b path rest other).failed = true ∧
+    (runEntry row.2.2.2 c sigKey time b path rest other).backend = b ∧
+    (runEntry row.2.2.2 c sigKey time b path rest other).backend.files (ringFile path) = some d := by
+  have hall := fact_rw_entry_points.2.1
+  rw [List.all_eq_true] at hall
+  have hshape : row.2.2.2 = "open-first-return-err" := by simpa using hall row hrow
+  have ht := rw_open_tampered_fails_and_preserves c sigKey time b path d e hstored hbad
+  simp only at ht
+  unfold runEntry
+  rw [if_pos hshape]
+  cases ho : (openKeyRing c sigKey time b path).out with
+  | err e' => simp only [ho]; exact ⟨trivial, ht.2.1, ht.2.2.1⟩
+  | loaded x => rw [ho] at ht; exact absurd ht.1 (by simp [OpenOut.isErr])
+  | created => rw [ho] at ht; exact absurd ht.1 (by simp [OpenOut.isErr])
+
+/-- **A write-back over a ring that no longer loads** (`AddKey`, `SetCurrent`, `SetState`, `DestroyKey`,
+`importASN1` on a handle whose file was changed after the open): error, back end untouched – and a
+write-back never creates, not even when the ring has disappeared. -/
+theorem rw_write_back_preserves (c : CryptoOps) (sigKey : Bytes) (time : Int) (b : Backend) (path : Bytes)
+    (apply : Bytes → Option Export.Ring) (e : LoadErr) (hp : pull c sigKey b path = .error e) :
+    let r := writeKeyRing c sigKey time b path apply
+    r.out.isErr = true ∧ r.backend = b ∧ ∀ call ∈ r.trace, call.isWrite = false := by
+  have := writeKeyRing_no_load c sigKey time b path apply e hp
+  exact ⟨this.2.1, this.1, this.2.2⟩
+
+/-- **Bundle import over a ring that does not load** (`ImportKeyRings` → `importKeyRing`): the ring is
+read first; a ring that is there but does not load makes the import fail with the back end untouched –
+whatever the conflict delegate would decide and whatever the import would write. -/
+theorem rw_import_preserves (c : CryptoOps) (sigKey : Bytes) (time : Int) (b : Backend) (path d : Bytes) (e : LoadErr)
+    (onExisting : Backend → Bytes → Done) (k : Backend → Done)
+    (hstored : b.get (ringFile path) = .ok d) (hbad : loadBytes c sigKey path d = .error e) :
+    (RingOpen.importKeyRing c sigKey time b path onExisting k).failed = true ∧
+    (RingOpen.importKeyRing c sigKey time b path onExisting k).backend = b := by
+  have hp : pull c sigKey b path = .error e := by rw [pull_of_get c sigKey b path d hstored]; exact hbad
+  have hne : e ≠ .notExist := by
+    intro h; rw [h] at hbad; exact loadBytes_ne_notExist _ _ _ _ hbad
+  have hpure := (readKeyRing_pure c sigKey b path).1
+  have hno : importOpensOn e = false := by
+    cases h : importOpensOn e with
+    | false => rfl
+    | true => exact absurd ((fact_import_opens_iff_not_exist.1 e).mp h) hne
+  have hlock : importOpensOn .lock = false := by decide
+  unfold RingOpen.importKeyRing
+  rcases readKeyRing_err c sigKey b path e hp with ho | ho
+  · simp only [ho, hno, Bool.false_eq_true, if_false]
+    exact ⟨trivial, hpure⟩
+  · simp only [ho, hlock, Bool.false_eq_true, if_false]
+    exact ⟨trivial, hpure⟩
+
+/-- **A modified or copied ring does not load** (the link to `ring_tamper`): let the bytes stored at
+ring path `path` parse as a container that carries the signatures an honest key store made for payload
+`raw` at ring path `p₀`. If the payload bytes now differ from `raw` (same length: any changed byte of the
+signed span), or the file sits at another path than it was signed for (`path ≠ p₀`: alice's ring copied
+to bob's path), the load fails with a signature error. (Collision freedom of the HMAC.) -/
+theorem tampered_or_copied_ring_does_not_load (c : CryptoOps) (hi : HashInj c) (sigKey path p₀ raw d : Bytes) (p : Parsed)
+    (hparse : parseContainer d = some p) (hsigs : p.sigs = (Notary.sign c sigKey (sigCtx p₀) raw).sigs)
+    (hlen : p.raw.length = raw.length ∨ path = p₀) (hne : p.raw ≠ raw ∨ path ≠ p₀) :
+    loadBytes c sigKey path d = .error .signature := by
+  unfold loadBytes
+  simp only [hparse]
+  cases hv : verifySignatures c sigKey (sigCtx path) p.container with
+  | ok u =>
+    have hver : Notary.verify c sigKey (sigCtx path) ⟨p.raw, (Notary.sign c sigKey (sigCtx p₀) raw).sigs⟩ = true := by
+      have := (verifySignatures_ok_iff c sigKey (sigCtx path) p.container).mp hv
+      simpa [Parsed.container, hsigs] using this
+    have := ring_tamper c hi sigKey p₀ raw path p.raw hver hlen
+    rcases hne with h | h
+    · exact absurd this.1 h
+    · exact absurd this.2 h
+  | error e =>
+    -- the only known signature is the honest one: it is a mismatch, not a missing signature
+    simp only
+    unfold verifySignatures at hv
+    simp only [Parsed.container, hsigs, Notary.sign] at hv
+    simp only [List.filter_cons, decide_true, if_true, List.filter_nil, List.any_cons, List.any_nil, Bool.or_false,
+      List.isEmpty_cons, Bool.false_eq_true, if_false] at hv
+    split at hv
+    · cases hv; rfl
+    · cases hv
+
+/-- **Alice's ring at Bob's path is preserved and reported.** Alice's honestly written ring file copied
+to Bob's ring path (`bob ≠ alice`) does not load there – the signature context is the path – so every
+read-write open of Bob's ring returns an error and leaves the copied file, and the whole back end, as it
+is: Bob does not silently get a fresh ring, and the evidence stays. The same for a ring whose signed span
+was modified in place. -/
+theorem copied_ring_preserved_and_reported (c : CryptoOps) (hi : HashInj c) (sigKey alice bob raw d : Bytes) (p : Parsed)
+    (time : Int) (b : Backend)
+    (hparse : parseContainer d = some p) (hraw : p.raw = raw) (hsigs : p.sigs = (Notary.sign c sigKey (sigCtx alice) raw).sigs)
+    (hne : bob ≠ alice) (hstored : b.get (ringFile bob) = .ok d) :
+    let r := openKeyRing c sigKey time b bob
+    r.out.isErr = true ∧ r.backend = b ∧ r.backend.files (ringFile bob) = some d ∧ ∀ call ∈ r.trace, call.isWrite = false :=
+  rw_open_tampered_fails_and_preserves c sigKey time b bob d .signature hstored
+    (tampered_or_copied_ring_does_not_load c hi sigKey bob alice raw d p hparse hsigs (Or.inl (by rw [hraw])) (Or.inr hne))
+
+/-- **An untouched ring loads, and the read-write open leaves it alone.** The file `signKeyRing` wrote for
+ring path `path` (any ring `r`, any time stamp; sizes in the range Go's reader accepts) passes the pull at
+`path`: `OpenKeyRingRW` hands out the ring's data, changes nothing and writes nothing. (Together with the
+theorems above: rings that load are kept as they are, rings that do not load are kept as they are and
+reported, only missing rings are created.) -/
+theorem honest_ring_file_loads (c : CryptoOps) (sigKey path : Bytes) (time t' : Int) (r : Export.Ring) (b : Backend)
+    (hr : (Der.derRing r).length < 8388608)
+    (hsig : (Notary.signBytes c sigKey (sigCtx path) (ringPayload time r)).length < 16777216)
+    (hstored : b.get (ringFile path) = .ok (signedFile c sigKey path time r)) :
+    pull c sigKey b path = .ok (Der.derRing r) ∧
+    (openKeyRing c sigKey t' b path).backend = b ∧
+    (∀ call ∈ (openKeyRing c sigKey t' b path).trace, call.isWrite = false) ∧
+    (b.lockFails = false → b.unlockFails = false → (openKeyRing c sigKey t' b path).out = .loaded (Der.derRing r)) := by
+  have hp : pull c sigKey b path = .ok (Der.derRing r) := by
+    rw [pull_of_get c sigKey b path _ hstored]
+    exact loadBytes_signedFile c sigKey path time r hr hsig
+  have hl := openKeyRing_loaded c sigKey t' b path _ hp
+  refine ⟨hp, hl.1, hl.2, ?_⟩
+  intro h1 h2
+  unfold openKeyRing
+  simp [h1, hp, withUnlock, h2]
+
+/-- **Alice's honestly written ring file at Bob's path** (the statement of `copied_ring_preserved_and_reported`
+for the very bytes the key store wrote): the file `signKeyRing` made for ring path `alice`, stored at ring
+path `bob ≠ alice`, does not load there; every read-write open of `bob` fails and leaves the file and the
+whole back end as they are. -/
+theorem honest_ring_at_foreign_path_preserved_and_reported (c : CryptoOps) (hi : HashInj c) (sigKey alice bob : Bytes)
+    (time t' : Int) (r : Export.Ring) (b : Backend)
+    (hr : (Der.derRing r).length < 8388608)
+    (hsig : (Notary.signBytes c sigKey (sigCtx alice) (ringPayload time r)).length < 16777216)
+    (hne : bob ≠ alice) (hstored : b.get (ringFile bob) = .ok (signedFile c sigKey alice time r)) :
+    let res := openKeyRing c sigKey t' b bob
+    res.out.isErr = true ∧ res.backend = b ∧ res.backend.files (ringFile bob) = some (signedFile c sigKey alice time r) ∧
+    ∀ call ∈ res.trace, call.isWrite = false :=
+  copied_ring_preserved_and_reported c hi sigKey alice bob (ringPayload time r) _ _ t' b
+    (parse_signedFile c sigKey alice time r hr hsig) rfl rfl hne hstored
+
+/-- the size hypotheses of `honest_ring_file_loads` are satisfiable (Box instance, the empty ring of path `p`) -/
+example : (Der.derRing (emptyRing (ofStr "p"))).length < 8388608 ∧
+    (Notary.signBytes boxOps [7] (sigCtx (ofStr "p")) (ringPayload 0 (emptyRing (ofStr "p")))).length < 16777216 := by
+  refine ⟨by decide, ?_⟩
+  obtain ⟨pc, hpc, hlen, _⟩ := parsePayload_ring 0 (emptyRing (ofStr "p")) (by decide)
+  rw [hpc]
+  have h0 : (Der.derRing (emptyRing (ofStr "p"))).length < 100 := by decide
+  have h1 := tlv_length_le 0x30 pc (by omega)
+  have h2 : (sigCtx (ofStr "p")).length = 37 := by decide
+  show (Box.esc [7] ++ (sigCtx (ofStr "p") ++ (ofStr ": " ++ Der.tlv 0x30 pc))).length < 16777216
+  have h3 : (Box.esc [7]).length ≤ 8 := by decide
+  have h4 : (ofStr ": ").length = 2 := by decide
+  simp only [List.length_append]
+  omega
+
+/-- **Modes on the creation path of a ring.** In the directory back end the only creating calls of `Put`
+are `MkdirAll(…, keyDirPerm)` for the ring's directories and `OpenFile(O_CREATE|O_EXCL, keyFilePerm)` for the
+file – this is how `<ring>.keyring.new` comes into being – and `Rename` / `RenameNX` contain no creating or
+mode-changing call (the ring file IS the temporary, renamed: it never passes through another mode). Under
+every umask the temporary, hence the ring file, and the directories have no group / other bit. (Regenerated
+call table; the kernel's `perm & ~umask` is the POSIX contract, checked by the stream `rwopen-modes`.) -/
+theorem rw_open_created_file_modes :
+    ((Generated.KeyPerms.permCalls.filter fun r => r.2.1 == "DirectoryBackend.Put").map fun r => (r.2.2.1, r.2.2.2)) =
+      [("os.MkdirAll", "keyDirPerm"), ("os.OpenFile", "keyFilePerm")] ∧
+    (Generated.KeyPerms.permCalls.filter fun r => r.2.1 == "DirectoryBackend.Rename" || r.2.1 == "DirectoryBackend.RenameNX" ||
+      r.2.1 == "DirectoryBackend.doRenameNX") = [] ∧
+    (∀ umask, Perms.ownerOnly (Perms.effectiveAt .v2File umask) = true ∧ Perms.ownerOnly (Perms.effectiveAt .v2Dir umask) = true) := by
+  refine ⟨by decide, by decide, fun umask => ⟨Perms.created_ownerOnly _ _ (by decide), Perms.created_ownerOnly _ _ (by decide)⟩⟩
+
+/-- What the adversary can put into the signature fields of a file: anything but a fresh valid MAC.
+Whenever a signature value in `sigs` IS the HMAC, under the key store's signature key, of some
+`context ‖ ": " ‖ data`, it is one the key store itself made – for one of the (ring path, payload) pairs of
+`honest`. (Unforgeability of the HMAC, as a hypothesis about the file.) -/
+def NoForgery (c : CryptoOps) (sigKey : Bytes) (honest : List (Bytes × Bytes)) (sigs : List Notary.Sig) : Prop :=
+  ∀ s ∈ sigs, ∀ ctx x, s.sig = Notary.signBytes c sigKey ctx x →
+    ∃ h ∈ honest, s.sig = Notary.signBytes c sigKey (sigCtx h.1) h.2
+
+/-- **What a ring file that loads can contain** (tamper evidence of the *content*, whatever is done to the
+file as a whole – any number of changed, inserted or appended bytes, any DER framing Go's reader accepts).
+If the bytes stored at ring path `path` parse and load, and the adversary could not forge a MAC
+(`NoForgery`), then the data element handed to the key ring is the one inside the payload found in the file,
+and that payload – every byte of it: content type, version, time stamp, purpose, all keys with their states,
+validity and sealed key data, the current-key marker – was signed by the key store itself; it is, byte for
+byte, a payload the key store signed **for this very path** whenever the lengths agree or the paths do (the
+`context ‖ ": " ‖ payload` string is otherwise only known to agree as a whole – same caveat as `ring_tamper`).
+What is *not* pinned are bytes outside the payload that carry no ring content: `der_outside_span_counterexample`. -/
+theorem ring_file_content_tamper_evident (c : CryptoOps) (hi : HashInj c) (sigKey path d data : Bytes)
+    (honest : List (Bytes × Bytes)) (p : Parsed) (hparse : parseContainer d = some p)
+    (hnf : NoForgery c sigKey honest p.sigs) (hload : loadBytes c sigKey path d = .ok data) :
+    data = p.payload.data ∧
+    ∃ h ∈ honest, path ++ (ofStr ": " ++ p.raw) = h.1 ++ (ofStr ": " ++ h.2) ∧
+      ((p.raw.length = h.2.length ∨ path = h.1) → path = h.1 ∧ p.raw = h.2) := by
+  unfold loadBytes at hload
+  simp only [hparse] at hload
+  cases hv : verifySignatures c sigKey (sigCtx path) p.container with
+  | error e => simp [hv] at hload
+  | ok u =>
+    simp only [hv] at hload
+    have hdata : data = p.payload.data := by
+      split at hload
+      · cases hload
+      · split at hload
+        · cases hload
+        · cases hload; rfl
+    refine ⟨hdata, ?_⟩
+    have hver := (verifySignatures_ok_iff c sigKey (sigCtx path) p.container).mp hv
+    obtain ⟨⟨s, hs, hoid⟩, hall⟩ := ring_signature_needed c sigKey (sigCtx path) p.raw p.sigs hver
+    have hsig := hall s hs hoid
+    obtain ⟨h, hh, heq⟩ := hnf s hs _ _ hsig
+    rw [hsig] at heq
+    have h2 := (hi.hmac_inj _ _ _ _ heq).2
+    simp only [sigCtx, ksCtx, List.append_assoc] at h2
+    have h3 := List.append_cancel_left (List.append_cancel_left h2)
+    refine ⟨h, hh, h3, ?_⟩
+    intro hlen
+    rcases hlen with hl | hp
+    · have hlen2 : (ofStr ": " ++ p.raw).length = (ofStr ": " ++ h.2).length := by simp [hl]
+      have hp : path = h.1 := by
+        have := congrArg List.length h3
+        simp only [List.length_append] at this
+        have hpl : path.length = h.1.length := by omega
+        exact (List.append_inj h3 hpl).1
+      rw [hp] at h3
+      exact ⟨hp, List.append_cancel_left (List.append_cancel_left h3)⟩
+    · rw [hp] at h3
+      exact ⟨hp, List.append_cancel_left (List.append_cancel_left h3)⟩
+
+/-- a minimal payload: `SEQUENCE { INTEGER 1 (key ring), INTEGER 2 (version), UTCTime, NULL }` -/
+def demoRaw : Bytes := [0x30, 0x0b, 0x02, 0x01, 0x01, 0x02, 0x01, 0x02, 0x17, 0x01, 0x5a, 0x05, 0x00]
+def demoSig : Notary.Sig := ⟨Notary.sha256OID, Notary.signBytes boxOps [7] (sigCtx (ofStr "p")) demoRaw⟩
+def demoSigEl (extra : Bytes) : Bytes := Der.tlv 0x30 (Der.derOID demoSig.oid ++ Der.derOctets demoSig.sig ++ extra)
+def demoFile (sigEls : List Bytes) (tail : Bytes) : Bytes := Der.tlv 0x30 (demoRaw ++ Der.tlv 0x31 sigEls.flatten ++ tail)
+
+set_option maxRecDepth 20000 in
+/-- **The ring file is malleable outside the signed span – in bytes that carry no content** (recorded, not
+a finding: the property quantifies over single-byte modifications, all of which are refused – enumeration
+`tamper` – and the key ring a reader gets is unaffected, `ring_file_content_tamper_evident`). Go's
+`encoding/asn1` ignores bytes after the last field of a `SEQUENCE` it reads into a struct, and the notary skips
+signatures of unknown algorithms "for future compatibility". For an honestly signed container (first line:
+the demo file IS `derContainer (sign …)`, and it loads), these modified files load as well, with the same
+data: two bytes appended inside the outer `SEQUENCE` after the signature set; two bytes appended inside the
+signature element; a second signature of an unknown algorithm after / before the real one. The same file at
+another path fails with a signature error; with only an unknown-algorithm signature it fails with "no
+signature". Replayed against the real reader by the stream `malleable` (ops `C07.roopen` / `C07.rwopen`). -/
+theorem der_outside_span_counterexample :
+    demoFile [demoSigEl []] [] = Der.derContainer (Notary.sign boxOps [7] (sigCtx (ofStr "p")) demoRaw) ∧
+    loadBytes boxOps [7] (ofStr "p") (demoFile [demoSigEl []] []) = .ok [5, 0] ∧
+    loadBytes boxOps [7] (ofStr "p") (demoFile [demoSigEl []] [0xde, 0xad]) = .ok [5, 0] ∧
+    loadBytes boxOps [7] (ofStr "p") (demoFile [demoSigEl [5, 0]] []) = .ok [5, 0] ∧
+    loadBytes boxOps [7] (ofStr "p") (demoFile [demoSigEl [], Der.derSig [1, 2, 3] [9]] []) = .ok [5, 0] ∧
+    loadBytes boxOps [7] (ofStr "p") (demoFile [Der.derSig [1, 2, 3] [9], demoSigEl []] []) = .ok [5, 0] ∧
+    loadBytes boxOps [7] (ofStr "q") (demoFile [demoSigEl []] []) = .error .signature ∧
+    loadBytes boxOps [7] (ofStr "p") (demoFile [Der.derSig [1, 2, 3] [9]] []) = .error .noSignature := by
+  refine ⟨by decide, by decide, by decide, by decide, by decide, by decide, by decide, by decide⟩
+
+
+/-- `NoForgery` is satisfiable by a file that carries the honest signature (non-vacuity) -/
+example : NoForgery boxOps [7] [(ofStr "p", demoRaw)] [demoSig] := by
+  intro s hs ctx x _
+  refine ⟨(ofStr "p", demoRaw), List.mem_singleton.mpr rfl, ?_⟩
+  rw [List.mem_singleton.mp hs]
+  rfl
+
+/-! non-vacuity: a back end whose ring file was replaced by garbage, opened under the Box instance -/
+
+/-- a back end with `<path>.keyring ↦ d` and nothing else -/
+def oneFile (path d : Bytes) : Backend :=
+  ⟨fun q => if q = ringFile path then some d else none, fun _ => true, fun _ => false, false, false⟩
+
+example : (oneFile (ofStr "client/bob/hmac-sym") [0x30, 0x03, 0x02, 0x01, 0x01]).get (ringFile (ofStr "client/bob/hmac-sym")) = .ok [0x30, 0x03, 0x02, 0x01, 0x01] ∧
+    loadBytes boxOps [7] (ofStr "client/bob/hmac-sym") [0x30, 0x03, 0x02, 0x01, 0x01] = .error .parse ∧
+    loadBytes boxOps [7] (ofStr "client/bob/hmac-sym") [] = .error .parse ∧
+    (openKeyRing boxOps [7] 0 (oneFile (ofStr "client/bob/hmac-sym") [0x30, 0x03, 0x02, 0x01, 0x01]) (ofStr "client/bob/hmac-sym")).out = .err .parse := by
+  refine ⟨by decide, by decide, by decide, by decide⟩
+
+/-- a missing ring is created (the create branch is reachable) -/
+example : (openKeyRing boxOps [7] 0 ⟨fun _ => none, fun _ => true, fun _ => false, false, false⟩ (ofStr "poison-record")).out = .created := by
+  decide
+
+end RingOpen
 
 /-! ## non-vacuity -/
 
